@@ -30,8 +30,97 @@ def op_tc_new(a):
     return _tc_fields(_tc(a))
 
 
+# ---- derived values the telecommand remembers (case key "hist" of tc_pack): read, change through the setters, read ----
+TC_VIEW_NAMES = ["packet_len", "fields", "to_space_packet", "calc_crc", "pack", "eq"]
+TC_SETTABLE = ["apid", "count", "source_id", "data", "service", "subservice", "ack"]
+
+
+def _tc_views(final):
+    """every derived view of a telecommand as plain values. `pack` and `calc_crc` refresh the stored checksum,
+    `to_space_packet` is documented to calculate it too; `crc16` is looked at right after each of them (the documented
+    moment at which it is the packet's checksum - between a setter and the next calculation it is, as documented, the
+    stored result of the LAST calculation and not a view of the fields)."""
+    def crc_of(t):
+        return None if t.crc16 is None else hx(t.crc16)
+
+    def v_sp(t):
+        sp = t.to_space_packet()
+        return {"raw": hx(core.pack_stable(sp, "PusTc.to_space_packet().pack()")), "crc16": crc_of(t),
+                "apid": int(sp.apid), "count": int(sp.seq_count), "shf": bool(sp.sec_header_flag)}
+
+    def v_calc(t):
+        t.calc_crc()
+        return crc_of(t)
+
+    def v_pack(t):
+        raw = core.pack_stable(t, "PusTc.pack()")
+        return {"raw": hx(raw), "crc16": crc_of(t), "again": hx(t.pack(recalc_crc=False))}
+
+    def v_eq(t):
+        ref = _tc(final)
+        return [bool(t == ref), bool(ref == t)]
+    return [("packet_len", lambda t: int(t.packet_len)), ("fields", _tc_fields), ("to_space_packet", v_sp),
+            ("calc_crc", v_calc), ("pack", v_pack), ("eq", v_eq)]
+
+
+def _tc_mutate(t: PusTc, old, new, path: str):
+    """old -> new through the documented ways of changing a telecommand: "tc" the setters of PusTc (seq_count, apid,
+    source_id, app_data; service / subservice / ack flags have none and are attributes of pus_tc_sec_header), "hdr" the
+    attributes / setters of the two header objects it exposes, "replace" new header objects stored in sp_header /
+    pus_tc_sec_header"""
+    data = unhx(new["data"])
+    if path == "replace":
+        t.app_data = data
+        t.sp_header = SpacePacketHeader(packet_type=t.sp_header.packet_type, apid=new["apid"], seq_count=new["count"],
+                                        data_len=len(data) + 6, sec_header_flag=True)
+        t.pus_tc_sec_header = type(t.pus_tc_sec_header)(service=new["service"], subservice=new["subservice"],
+                                                        source_id=new["source_id"], ack_flags=new["ack"])
+        return
+    hdr = path == "hdr"
+    if new["apid"] != old["apid"]:
+        setattr(t.sp_header if hdr else t, "apid", new["apid"])
+    if new["count"] != old["count"]:
+        setattr(t.sp_header if hdr else t, "seq_count", new["count"])
+    if new["source_id"] != old["source_id"]:
+        setattr(t.pus_tc_sec_header if hdr else t, "source_id", new["source_id"])
+    if new["data"] != old["data"]:
+        t.app_data = data
+    for key, attr in (("service", "service"), ("subservice", "subservice"), ("ack", "ack_flags")):
+        if new[key] != old[key]:
+            setattr(t.pus_tc_sec_header, attr, new[key])
+
+
+def _tc_after_history(a):
+    """the telecommand of the case's parameters, reached the long way: built (or decoded) with other values, looked at,
+    changed to the case's values through the setters; what it shows then is what a telecommand built directly with the
+    case's values shows"""
+    h = a["hist"]
+    old = h["from"]
+
+    def make():
+        t = _tc(old)
+        return PusTc.unpack(bytes(t.pack()) + b"\x00") if h.get("how") == "unpack" else t
+    got = {}
+    err = core.read_mutate_read(make, _tc_views(a), lambda t: _tc_mutate(t, old, a, h.get("path", "tc")), lambda: _tc(a),
+                                "PusTc", first=h.get("read"), after=h.get("after"), out=got)
+    if err:
+        raise SelfCheckFailure(err)
+    return got["obj"], got["after"]
+
+
 def op_tc_pack(a):
-    t = _tc(a)
+    if a.get("hist"):
+        # the octets the changed telecommand showed (in the order of the case) are what the model is asked about
+        t, seen = _tc_after_history(a)
+        if not all("ok" in seen.get(v, {}) for v in ("pack", "to_space_packet", "packet_len")):
+            return _tc_pack_checks(t)
+        raw, sp = seen["pack"]["ok"]["raw"], seen["to_space_packet"]["ok"]["raw"]
+        return {"raw": raw, "sp_raw": sp, "packet_len": seen["packet_len"]["ok"],
+                "crc_ok": bool(check_pus_crc(unhx(raw))) and bool(check_pus_crc(unhx(sp)))}
+    return _tc_pack_checks(_tc(a))
+
+
+def _tc_pack_checks(t: PusTc):
     # (packs twice, the caller modifying the first returned buffer in between)
     raw = core.pack_stable(t, "PusTc.pack()")
     if len(raw) != t.packet_len:
@@ -295,6 +384,38 @@ class C02(Prop):
                     raw = with_crc(spec_tc(a))
                     yield Case({"op": "tc_unpack", "raw": hx(raw + rng.choice([b"", rbytes(rng, 2), raw]))}, "valid",
                                tag="crc-zero-after-" + stage)
+        # a telecommand that reached the case's values the long way (key "hist"): built / decoded with other values, some or
+        # all of its derived views read (pack, calc_crc, to_space_packet, packet_len ...), then changed through the documented
+        # setters / header attributes / new header objects, then every view read again in the order the case gives (a view
+        # that refreshes a remembered value hides a stale one read after it): all of that must be what a telecommand built
+        # directly with the final values shows, and what the model packs
+        reads = [None, [], ["pack"], ["calc_crc"], ["to_space_packet"], ["packet_len", "fields"], ["pack", "to_space_packet"]]
+        firsts = ["to_space_packet", "calc_crc", "pack", "packet_len", "fields", "eq"]
+        k = 0
+        for rep in range(12 if thorough else 2):
+            for how in ("new", "unpack"):
+                for path in ("tc", "hdr", "replace"):
+                    for rd in reads:
+                        for what in TC_SETTABLE + ["all", "some"]:
+                            k += 1
+                            if (rep or what not in ("count", "all")) and (k + rep) % 4:
+                                continue
+                            a = rand_args(rng)
+                            old = rand_args(rng) if what in ("all", "some") else dict(a)
+                            if what == "some":
+                                for key in rng.sample(TC_SETTABLE, rng.randint(1, 4)):
+                                    old[key] = a[key]
+                            elif what == "data":
+                                n = len(unhx(a["data"]))
+                                old["data"] = hx(rbytes(rng, rng.choice([n, n, n + 1, max(0, n - 1), 0, rng.randint(0, 40)])))
+                            elif what != "all":
+                                top = {"apid": 2047, "count": 16383, "source_id": 65535, "service": 255, "subservice": 255, "ack": 15}[what]
+                                old[what] = rng.choice([(a[what] + 1) % (top + 1), a[what] ^ top, rng.randint(0, top)])
+                            first = firsts[k % len(firsts)]
+                            rest = [v for v in TC_VIEW_NAMES if v != first]
+                            rng.shuffle(rest)
+                            yield Case({"op": "tc_pack", **a, "hist": {"from": old, "how": how, "path": path, "read": rd,
+                                                                       "after": [first] + rest}}, "valid", tag="read-set-read")
         # random octet strings
         for _ in range(20000 if thorough else 3000):
             ln = rng.randint(0, 40)
